@@ -238,7 +238,9 @@ Definition discard (m : mgr) : mgr :=
         2 on_ack (a = send time of the newest acknowledged packet, b = bytes, c = ack receive time,
                   d = the path's estimator has a first RTT sample)
         3 on_packet_lost (a = lost bytes, b = persistent_congestion, c = new_loss_burst, d = timestamp)
-        4 on_packet_discarded (a = bytes) *)
+        4 on_packet_discarded (a = bytes)
+        5 Context::on_packet_ack (path = the path the ACK arrived on, a = range start, b = range end,
+          c = timestamp): what the manager reports to the ACK manager / streams as acknowledged *)
 Record call := { k_kind : N; k_path : N; k_a : N; k_b : N; k_c : N; k_d : N }.
 Definition nb (b : bool) : N := if b then 1 else 0.
 
@@ -300,6 +302,10 @@ Definition ack_calls (m : mgr) (now : N) (rs : list (N * N)) (lgf ack_delay rxpa
          | None => []
          end
   end.
+
+(* process_ack_range notifies the Context of every range of the frame, as received, before anything else *)
+Definition range_calls (rs : list (N * N)) (now rxpath : N) : list call :=
+  map (fun r => {| k_kind := 5; k_path := rxpath; k_a := fst r; k_b := snd r; k_c := now; k_d := 0 |}) rs.
 
 Definition timeout_calls (m : mgr) (now : N) : list call :=
   match loss_timer m with
@@ -389,7 +395,8 @@ Definition mcalls (m : mgr) (c a b d e f g : Z) : list call :=
     let m0 := set_now m now in
     let m0 := if mp m0 then burst_complete m0 now else m0 in
     if match lastpn m with Some l => zN b <=? l | None => false end
-    then ack_calls m0 now (mk_ranges (zN b) (zN d) (zN e) (zN f)) (zN b) (zN g * 1000) (if (c =? 4)%Z && negb (single m) then 1 else 0)
+    then range_calls (mk_ranges (zN b) (zN d) (zN e) (zN f)) now (if (c =? 4)%Z && negb (single m) then 1 else 0)
+         ++ ack_calls m0 now (mk_ranges (zN b) (zN d) (zN e) (zN f)) (zN b) (zN g * 1000) (if (c =? 4)%Z && negb (single m) then 1 else 0)
     else []
   else if (c =? 5)%Z then
     let now := m_now m + zN a in
@@ -463,7 +470,9 @@ Definition run (case : list Z) : list Z :=
      flight and resolve every packet;
    - every congestion-controller call carries the op's time where the API means "now": on_packet_lost the
      detection time (RFC 9002 7.3.2: the recovery period starts when loss is detected), with positive bytes;
-     on_packet_sent the send time; on_ack the receive time. *)
+     on_packet_sent the send time; on_ack the receive time;
+   - every range reported to the Context as acknowledged (on_packet_ack) lies inside one range of the ACK
+     frame being processed and carries the op's time; no such report outside an accepted ACK frame. *)
 Record jm := {
   j_un : list pkt;            (* unresolved packets, ascending *)
   j_lg : option N;
@@ -513,16 +522,29 @@ Definition parse_obs (o : list Z) : option (Z * list N * list (N * N) * list Z *
 (* the controller calls of an op, checked against the op's time (RFC 9002 7.3.2 / 7.6: the recovery
    period starts when the loss is detected, so on_packet_lost must carry the detection time; a sent
    packet is reported with its send time; an ACK with the time it was received) *)
-Fixpoint calls_ok (now : N) (l : list Z) : bool :=
+Definition in_some_range (rs : list (N * N)) (s e : N) : bool :=
+  (s <=? e) && existsb (fun r => (fst r <=? s) && (e <=? snd r)) rs.
+
+(* [rs]: the ranges of the ACK frame this op delivers ([] for any other op): a range reported to the
+   Context as acknowledged must lie inside one range of the frame -- the frame's ranges are separated by
+   at least one unacknowledged packet number, so this says: no packet number of a gap is ever reported *)
+Fixpoint calls_ok (now : N) (rs : list (N * N)) (l : list Z) : bool :=
   match l with
   | [] => true
-  | k :: _ :: a :: _ :: c :: d :: t =>
+  | k :: _ :: a :: b :: c :: d :: t =>
       (if (k =? 1)%Z then zN a =? now
        else if (k =? 2)%Z then zN c =? now
        else if (k =? 3)%Z then (zN d =? now) && (0 <? zN a)
-       else true) && calls_ok now t
+       else if (k =? 5)%Z then (zN c =? now) && in_some_range rs (zN a) (zN b)
+       else true) && calls_ok now rs t
   | _ => false
   end.
+
+(* the ranges of the frame an op delivers (accepted ACK frames only) *)
+Definition op_ranges (last : option N) (c b d e f : Z) : list (N * N) :=
+  if ((c =? 3) || (c =? 4))%Z
+  then if match last with Some l => zN b <=? l | None => false end then mk_ranges (zN b) (zN d) (zN e) (zN f) else []
+  else [].
 
 (* the time of an op: the clock advanced by the op's delta *)
 Definition op_now (t0 : N) (c a e : Z) : N :=
@@ -580,7 +602,7 @@ Definition jstep_m (tol : bool) (app client : bool) (j : jm) (c a b d e f g : Z)
   | None => None
   | Some (code, lost, hulls, calls, rest, remaining) =>
     if negb (all_nonneg (firstn (length o - length remaining) o)) then None else
-    if negb (calls_ok (op_now (j_now j) c a e) calls) then None else
+    if negb (calls_ok (op_now (j_now j) c a e) (op_ranges (j_last j) c b d e f) calls) then None else
     let cc0 := cc_of rest 0 in let cc1 := cc_of rest 4 in
     let bo := zN (znth rest 10) in
     let bif_ok (un : list pkt) :=
